@@ -16,6 +16,8 @@ were allowed to proceed, a live play conversation keeps answering keep-alives,
 every ended conversation leaves no thread behind, and the object can connect
 again at the end.
 """
+import os
+
 from vf import harness, explore, statehash, pysched
 from vf.refproto import framing
 from vf.runner import ToolError, REPO, h64
@@ -554,6 +556,7 @@ STARTS = ('fresh', 'play', 'disconnected', 'refused')
 NEGOTIATING = 'negotiating'
 ENCRYPTING = 'encrypting'      # connect() issued, server will ask for encryption
 STATUSING = 'statusing'        # status() issued, reply not yet processed
+PLAY_MULTI = 'play_multi'      # in play, every connect() negotiates the version
 PROGS = {
     'connect||connect': ([('connect',)], [('connect',)]),
     'connect||disc': ([('connect',)], [('disc',)]),
@@ -594,19 +597,24 @@ def sched_body(W, start, prog):
     from vf.refserver import RefServer, status_json
     from vf import protoids
 
+    # (from the multi-version play state the server runs the OLDER allowed
+    # version: a fallback to the default version then shows)
+    SRV_V, SRV_NAME = (340, '1.12.2') if start in (PLAY_MULTI, NEGOTIATING) \
+        else (V, '1.18.1')
+
     def factory(conn):
         login = [('success',)]
         if start == ENCRYPTING and not W.servers:
             login = [('encrypt', 'srv', b'\x01\x02\x03\x04'), ('success',)]
         srv = RefServer(conn, protoids.ids, W.rank, login=login,
                         rsa=harness.rsa_key(),
-                        status={'json': status_json(protocol=V,
-                                                    name='1.18.1')})
+                        status={'json': status_json(protocol=SRV_V,
+                                                    name=SRV_NAME)})
         W.servers.append(srv)
         return srv
     W.net.endpoints = Ep()
-    conn = W.connection(allowed_versions={V, 340} if start == NEGOTIATING
-                        else {V},
+    conn = W.connection(allowed_versions={V, 340}
+                        if start in (NEGOTIATING, PLAY_MULTI) else {V},
                         handle_exception=lambda e, i: errs.append(
                             type(e).__name__),
                         handle_exit=lambda: exits.append(1))
@@ -621,7 +629,7 @@ def sched_body(W, start, prog):
             except InvalidState:
                 results['listener:reconnect'] = 'invalid'
     conn.register_packet_listener(on_ka, clientbound.play.KeepAlivePacket)
-    if start in ('play', 'disconnected'):
+    if start in ('play', 'disconnected', PLAY_MULTI):
         conn.connect()
         W.settle()
         if start == 'disconnected':
@@ -654,6 +662,8 @@ def sched_body(W, start, prog):
                 W.servers[-1].play(('disconnect', '{"text":"bye"}'))
             elif op[0] == 'srv_garbage':
                 W.servers[-1].play(('raw', 0x21, b'\x01'))
+            elif op[0] == 'srv_close':
+                W.servers[-1].play(('close',))
             elif op[0] == 'srv_ka99':
                 W.servers[-1].play(('keepalive', 99))
             results[tag] = 'ok'
@@ -740,6 +750,15 @@ def sched_body(W, start, prog):
             srv_l.play(('keepalive', 4141))
             W.settle()
             alive = ('keepalive', 4141) in srv_l.play_rx
+        if alive and start in (PLAY_MULTI, NEGOTIATING) and \
+                srv_l.version != SRV_V:
+            # observed, not judged (C16 says nothing about versions and C09
+            # does not quantify over schedules, see DESIGN.md 9.3): the end
+            # of stream of the OLD status connection is handed to the NEW
+            # connection's negotiation reactor, which falls back to the
+            # default version although its own server answered
+            errs.append('observation: stale end of stream made the new '
+                        'connection fall back to the default version')
         if not alive:
             viol.append(('connect-lost', 'the last call was %s, it was '
                          'accepted, nobody disconnected afterwards, yet the '
@@ -752,7 +771,7 @@ def sched_body(W, start, prog):
                   if v == 'ok' and k.split(':')[1] in ('connect', 'status',
                                                        'reconnect'))
     # (server-side triggers 'srv_*' are not calls of the client API)
-    if opened != okcalls and start != NEGOTIATING:
+    if opened != okcalls and start not in (NEGOTIATING, PLAY_MULTI):
         viol.append(('tcp-count', '%d TCP connections were opened by %d '
                      'accepted connect()/status() calls (%r)'
                      % (opened, okcalls, results)))
@@ -837,6 +856,18 @@ PROGS['disc,connect'] = ([('disc',), ('connect',)], [])
 QUICK_B[(STATUSING, 'disc,connect')] = 1
 QUICK_B[(STATUSING, 'disc')] = 1
 QUICK_B[(NEGOTIATING, 'disc,connect')] = 1
+PROGS['close||disc,connect'] = ([('srv_close',), ('disc',), ('connect',)], [])
+PROGS['garbage||disc,connect'] = ([('srv_garbage',), ('disc',), ('connect',)],
+                                  [])
+for _p in ('close||disc,connect', 'garbage||disc,connect',
+           'kick||disc,connect'):
+    QUICK_B[(PLAY_MULTI, _p)] = 1
+QUICK_B[('play', 'close||disc,connect')] = 1
+THOROUGH_ONLY = {(PLAY_MULTI, 'close||disc,connect'),
+                 (PLAY_MULTI, 'garbage||disc,connect'),
+                 ('play', 'garbage||disc,connect')}
+QUICK_B[(NEGOTIATING, 'close||disc,connect')] = 0
+QUICK_B[('play', 'garbage||disc,connect')] = 1
 QUICK_B.update({('play', 'connect||disc'): 2, ('fresh', 'connect||connect'): 2})
 
 
@@ -846,6 +877,25 @@ def run(ctx):
 
     def lap(name):
         ctx.extra['seconds_' + name] = round(time.time() - t0, 1)
+    only = os.environ.get('VERIF_C16_ONLY')      # development aid
+    if only:
+        ex = explore.Explorer(table_bits=23)
+        try:
+            for (start, prog), b in sorted(QUICK_B.items()):
+                if only in '%s %s' % (start, prog):
+                    b += int(os.environ.get('VERIF_C16_EXTRA', '0'))
+                    res = ex.explore(ctx, factory,
+                                     {'start': start, 'prog': prog}, b,
+                                     label='sched %s %s ' % (start, prog))
+                    print('  %s %s bound=%d execs=%d pruned=%d outcomes=%d'
+                          % (start, prog, b, res.execs, res.pruned,
+                             len(res.outcomes)))
+                    for o, n in sorted(res.outcomes.items(),
+                                       key=lambda kv: repr(kv[0])):
+                        print('     %6s x %s' % (n, str(o)[:300]))
+        finally:
+            ex.close()
+        return
     # every history up to a depth, no abstraction trusted
     RACY_DEPTH[0] = 12 if ctx.thorough else 6
     bfs(ctx, 5 if ctx.thorough else 4, dedup=False, label='all_histories')
@@ -875,6 +925,8 @@ def run(ctx):
         for (start, prog), b in sorted(QUICK_B.items()):
             if ctx.thorough:
                 b += 1
+            elif (start, prog) in THOROUGH_ONLY:
+                continue
             res = ex.explore(ctx, factory, {'start': start, 'prog': prog}, b,
                              label='sched %s %s ' % (start, prog))
             ctx.cls('sched %s %s bound=%d' % (start, prog, b))
